@@ -23,6 +23,7 @@ func genPrelude() string {
 (declare-fun gs.lt (Str Str) Bool)
 (declare-fun gs.sub (Str Int Int) Str)
 (declare-fun gs.cat (Str Str) Str)
+(assert (forall ((s Str) (a Int) (b Int) (j Int)) (! (=> (and (<= a j) (< j b) (<= 0 a) (<= b (gs.len s))) (= (gs.at s j) (gs.at (gs.sub s a b) (- j a)))) :pattern ((gs.at s j) (gs.sub s a b)))))
 (declare-fun gs.ofbytes (Int Int Int (Array Int Int)) Str)
 (assert (forall ((b Int) (o Int) (n Int) (A (Array Int Int))) (! (=> (>= n 0) (= (gs.len (gs.ofbytes b o n A)) n)) :pattern ((gs.ofbytes b o n A)))))
 (declare-const gs.empty Str)
